@@ -58,6 +58,13 @@ fn main() {
     // panics inside explorers are caught per state; keep the default hook quiet
     report::install_panic_hook();
     if let Some(path) = replay {
+        // a replayed hang must end too
+        std::thread::spawn(|| {
+            let limit = std::env::var("VERIF_HANG_LIMIT").ok().and_then(|s| s.parse().ok()).unwrap_or(30u64);
+            std::thread::sleep(std::time::Duration::from_secs(limit));
+            println!("replay: the call did not return within {limit} s (hang reproduced)");
+            std::process::exit(1);
+        });
         let text = std::fs::read_to_string(&path).expect("cannot read replay file");
         let v: serde_json::Value = serde_json::from_str(&text).expect("replay file is not JSON");
         let code = match id.as_str() {
